@@ -15,7 +15,10 @@ IMPLEMENTATION's outputs:
   Lag             out = (buffer ++ inflow)[:T], new buffer = (buffer ++ inflow)[-L:]
 
 Lag and Muskingum are compared bit-exactly with the extracted model; StorageRouting
-to rtol 1e-9 (math.Pow vs OCaml **) and, when that fails, to the solver tolerance."""
+to rtol 1e-9 (math.Pow vs OCaml **) and, when that fails, to the solver tolerance.
+
+(Development aid: C11_DEV_BIN=<dir> runs the case streams against <dir>/owrun and
+<dir>/oc/driver without building or proving anything.)"""
 import sys, os, math
 from fractions import Fraction as Fr
 sys.path.insert(0, os.path.dirname(os.path.abspath(__file__)))
@@ -435,8 +438,18 @@ def main():
     c = Check('C11')
     if not _DEV:
         c.prove()
-        build_driver()
-        build_harness(['owrun'])
+        try:
+            build_driver()
+            build_harness(['owrun'])
+        except BuildError as e:
+            # the extracted model or the harness does not build: nothing can be compared
+            log('BUILD BROKEN:', e.what)
+            log(e.output[-1500:])
+            if not c.proof_broken:
+                c.proof_broken = ('build: ' + e.what, e.output[-3000:])
+            c.cov['rule'] = 'no case was run: the extracted model / Go harness could not be built'
+            c.sample({'note': 'no case run (build failure)'})
+            c.finish(extra_cov={'exhaustive': False})
     rng = c.rng
     quick = c.tier == 'quick'
     stats = {}
@@ -521,6 +534,7 @@ def main():
     n_solver_tol = 0
     n_dom = 0
     known_steps = {}
+    lin_cases = lin_exit7 = 0
     for i, (cs, li, lm) in enumerate(zip(srs, impl, model)):
         ri, rmp = parse_kresult(li), parse_kresult(lm)
         paths = None
@@ -532,6 +546,10 @@ def main():
                 pathcount[p] = pathcount.get(p, 0) + 1
         ind = sr_in_domain(cs)
         n_dom += ind
+        linear = cs['m'] == 1.0 or (abs(cs['bias']) >= 0.001 and abs(cs['m'] - 1.0) < 0.001)
+        if ind and linear and abs(cs['bias']) < 0.999 and paths is not None:
+            lin_cases += 1
+            lin_exit7 += sum(1 for p in paths if p == 7)      # proved impossible over R (C11_sr_balance_closed_linear)
         c.count(('S', i, cs['bias'], cs['k'], cs['m'], len(cs['inflow'])), nontrivial=ind and paths is not None and len(set(paths)) > 1)
         ag = sr_agree(cs, ri, rm)
         if ag == 'solver':
@@ -572,6 +590,29 @@ def main():
         # a systematic one means the solver in the code is no longer the modelled one
         c.corr_broken.append({'model': 'StorageRouting', 'diff': 'outputs agree only within the solver tolerance in %d of %d cases' % (n_solver_tol, len(srs))})
     stats['known_finding_failing_steps'] = known_steps
+    stats['linear_storage_law_cases'] = lin_cases
+    stats['linear_storage_law_exit7_steps'] = lin_exit7
+
+    # ---- vector-shape stream (model vs code only): surplus / missing parameters, states, input series
+    shape = [kcase('StorageRouting', [0.0, 43200.0, 1.0, 0.0, 0.0, 86400.0, 5.0], [0.0, 0.0, 0.0], [[1.0], [0.0], [0.0], [0.0]]),
+             kcase('StorageRouting', [0.0, 43200.0, 1.0, 0.0, 0.0], [0.0, 0.0, 0.0], [[1.0], [0.0], [0.0], [0.0]]),
+             kcase('StorageRouting', [0.0, 43200.0, 1.0, 0.0, 0.0, 86400.0], [0.0, 0.0], [[1.0], [0.0], [0.0], [0.0]]),
+             kcase('StorageRouting', [0.0, 43200.0, 1.0, 0.0, 0.0, 86400.0], [0.0, 0.0, 0.0, 7.0], [[1.0], [0.0], [0.0], [0.0]]),
+             kcase('StorageRouting', [0.0, 43200.0, 1.0, 0.0, 0.0, 86400.0], [0.0, 0.0, 0.0], [[1.0], [0.0], [0.0]]),
+             kcase('StorageRouting', [0.0, 43200.0, 1.0, 0.0, 0.0, 86400.0], [0.0, 0.0, 0.0], [[1.0], [0.0], [0.0], [0.0], [9.0]]),
+             kcase('Muskingum', [86400.0, 0.2, 86400.0, 1.0], [0.0, 1.0, 1.0], [[1.0], [0.0]]),
+             kcase('Muskingum', [86400.0, 0.2, 86400.0], [0.0, 1.0, 1.0, 4.0], [[1.0], [0.0]]),
+             kcase('Muskingum', [86400.0, 0.2, 86400.0], [0.0, 1.0], [[1.0], [0.0]]),
+             kcase('Muskingum', [86400.0, 0.2, 86400.0], [0.0, 1.0, 1.0], [[1.0], [0.0], [3.0]]),
+             kcase('Muskingum', [86400.0, 0.2], [0.0, 1.0, 1.0], [[1.0], [0.0]]),
+             kcase('Lag', [1.0, 2.0], [5.0], [[1.0]]),
+             kcase('Lag', [1.0], [5.0], [[1.0], [2.0]])]
+    for ln, li, lm in zip(shape, impl_run(shape), model_run(shape)):
+        c.count(('shape', ln), nontrivial=False)
+        diff = kresults_agree(parse_kresult(li), parse_kresult(lm))
+        if diff:
+            c.corr_broken.append({'model': ln.split()[1], 'diff': 'vector shapes: ' + diff, 'line': ln})
+    stats['vector_shape_cases'] = len(shape)
 
     c.cov['rule'] = (
         'cases = one K-line per case run through sim.Catalog (1 cell) and through the extracted Coq kernels. '
